@@ -65,10 +65,10 @@ import LitexModel.Packet.Num
   `last_be`                       | — (this version of packet.py has none)| —                                             | —
   PacketFIFO, depths ≥ 2          | Packet/Fifo.lean `packetFifo`,        | packetfifo_atomic, _valid_complete,           | A: depth 2..4 plain/buffered; B: depths 3..64, param
     (plain / buffered)            | `packetFifoBuffered`                  | _buffered_atomic, _capacity                   | depths 1..20, 8..128 bit, monitor PacketFifoMonitor
-  PacketFIFO, every depth incl.   | Packet/FifoAll.lean `packetFifoAll`   | packetfifo_atomic_all_depths_partial,         | A: (1), (1,pd0), (1,buffered), (0), (2,pd0), …;
-    0 / 1, mixed kinds, param_    | (QKind never/pipe/fifo/bfifo)         | _valid_complete_all_depths_partial,           | B: depth-1 / param_depth-0 grid; all PacketFIFO jobs
+  PacketFIFO, every depth incl.   | Packet/FifoAll.lean `packetFifoAll`   | packetfifo_atomic_all_depths (full strength), | A: (1), (1,pd0), (1,buffered), (0), (2,pd0), …;
+    0 / 1, mixed kinds, param_    | (QKind never/pipe/fifo/bfifo)         | _valid_complete_all_depths,                   | B: depth-1 / param_depth-0 grid; all PacketFIFO jobs
     depth = 0, dummy param        |                                       | packetfifo_depth0_dead, _all_depths_extends,  | except two legacy ones run against this model;
-                                  |                                       | packetfifo_buffered_param_depth0_defect       | defect region compared without monitor
+                                  |                                       | _buffered_param_depth0_fixed / _prefix_defect | fixed finding: probe + corpus + monitored jobs
   PacketFIFO `param_layout == []` | same machines with param ≡ 0 (a 1-bit | (the theorems above, param = 0)               | A "PacketFIFO(2)/no params", B "(5,buffered)/no params"
     → dummy param                 | `dummy` that is never connected)      |                                               |
 
@@ -366,13 +366,12 @@ example :
   params: `qd = param_depth + 1 ≥ 1`).  `packetFifoAll` models every combination over one generic queue
   (`QSt`: `stored`, `readable`, `dout`, `writable`, `next`), powers of two or not. -/
 
-/-- **packetfifo_atomic for every payload/param depth and both `buffered` values** (`_partial`: the hypothesis excludes
-    exactly buffered payload FIFO + `PipeValid` param queue, i.e. `buffered=True, payload_depth ≥ 2, param_depth = 0`,
-    where the property FAILS on the code — `packetfifo_buffered_param_depth0_defect`).  Same conclusions as
+/-- **packetfifo_atomic for every payload/param depth and both `buffered` values** — full strength, no exclusion
+    (the model follows the code after the fix of finding C16-packetfifo-buffered-param-depth0:
+    `source.valid = param_fifo.source.valid & payload_fifo.source.valid`).  Same conclusions as
     `packetfifo_atomic`; `stored` = what the queue of that kind holds (register and/or FIFO content), capacities
-    0 / 1 / depth / depth+1. -/
-theorem packetfifo_atomic_all_depths_partial (pd qd : Nat) (buffered : Bool)
-    (hnd : ¬ (buffered = true ∧ 2 ≤ pd ∧ qd = 1)) (ins : List (In PBeat)) :
+    0 / 1 / depth / depth+1; `source.valid` only while both queues really show their head. -/
+theorem packetfifo_atomic_all_depths (pd qd : Nat) (buffered : Bool) (ins : List (In PBeat)) :
     let e := packetFifoAll pd qd buffered
     let kp := qkind pd buffered
     let kq := qkind qd buffered
@@ -380,36 +379,54 @@ theorem packetfifo_atomic_all_depths_partial (pd qd : Nat) (buffered : Bool)
     e.delivered e.init ins <+: annT (e.accepted e.init ins) ∧
     (e.accepted e.init ins).length = (e.delivered e.init ins).length + (s.pay.stored kp).length ∧
     (s.par.stored kq).length = ((s.pay.stored kp).filter (fun x => x.2)).length ∧
-    (s.par.readable kq = true → s.pay.readable kp = true) ∧
+    (∀ i, (e.out s i).valid = true → s.par.readable kq = true ∧ s.pay.readable kp = true) ∧
     (s.pay.stored kp).length ≤ QSt.cap kp pd ∧ (s.par.stored kq).length ≤ QSt.cap kq qd :=
-  packetFifoAll_atomic pd qd buffered hnd ins
+  packetFifoAll_atomic pd qd buffered ins
 
-/-- `source.valid` (in any reachable state, same exclusion) shows the head of the stored payload with the head of
-    the stored params, and a complete packet is stored. -/
-theorem packetfifo_valid_complete_all_depths_partial (pd qd : Nat) (buffered : Bool)
-    (hnd : ¬ (buffered = true ∧ 2 ≤ pd ∧ qd = 1)) (ins : List (In PBeat)) (i : In PBeat) :
+/-- `source.valid` (in any reachable state, every parameterisation) shows the head of the stored payload with the
+    head of the stored params, and a complete packet is stored. -/
+theorem packetfifo_valid_complete_all_depths (pd qd : Nat) (buffered : Bool) (ins : List (In PBeat))
+    (i : In PBeat) :
     let e := packetFifoAll pd qd buffered
     let s := e.runFrom e.init ins
     (e.out s i).valid = true →
       (∃ rest, s.pay.stored (qkind pd buffered) = ((e.out s i).tok.data.data, (e.out s i).tok.last) :: rest) ∧
       (∃ rest, s.par.stored (qkind qd buffered) = (e.out s i).tok.data.param :: rest) ∧
       ∃ x ∈ s.pay.stored (qkind pd buffered), x.2 = true :=
-  packetFifoAll_valid_complete pd qd buffered hnd ins i
+  packetFifoAll_valid_complete pd qd buffered ins i
 
-/-- Negative witness on the model (= the code, tied): `PacketFIFO(2, param_depth=0, buffered=True)`, one single-beat
-    packet `(107 | param 48)`: the param register is readable one cycle before the payload output register, so a
-    beat that was never accepted (`data 0`, `last 0`) is delivered first. -/
-theorem packetfifo_buffered_param_depth0_defect :
+/-- Outside `buffered ∧ payload_depth ≥ 2 ∧ param_depth = 0` the param queue is never readable before the payload
+    queue: there the added `& payload_fifo.source.valid` changes nothing at the ports. -/
+theorem packetfifo_fix_neutral_elsewhere (pd qd : Nat) (buffered : Bool)
+    (hnd : ¬ (buffered = true ∧ 2 ≤ pd ∧ qd = 1)) (ins : List (In PBeat)) :
+    let e := packetFifoAll pd qd buffered
+    let s := e.runFrom e.init ins
+    s.par.readable (qkind qd buffered) = true → s.pay.readable (qkind pd buffered) = true :=
+  packetFifoAll_readable_inv pd qd buffered hnd ins
+
+/-- The witness of the fixed finding on the fixed machine `PacketFIFO(2, param_depth=0, buffered=True)`: the
+    single-beat packet `(107 | param 48)` is delivered exactly once; after the first cycle the param register is
+    readable, the payload output register not yet, and `source.valid` stays low. -/
+theorem packetfifo_buffered_param_depth0_fixed :
     let t (d p : Nat) (l : Bool) : Tok PBeat := ⟨⟨d, p⟩, false, l⟩
     let e := packetFifoAll 2 1 true
     let ins : List (In PBeat) := [⟨true, t 107 48 true, true⟩, ⟨false, t 0 0 false, true⟩,
       ⟨false, t 0 0 false, true⟩, ⟨false, t 0 0 false, true⟩]
+    e.accepted e.init ins = [t 107 48 true] ∧ e.delivered e.init ins = [t 107 48 true] := by
+  have h := packetFifoAll_fixed_witness
+  exact ⟨h.1, h.2.1⟩
+
+/-- Negative witness of the method BEFORE the fix (`packetFifoAllPre`: `source.valid` = param queue readable only):
+    the same inputs deliver a beat that was never accepted (`data 0`, `last 0`) first. -/
+theorem packetfifo_buffered_param_depth0_prefix_defect :
+    let t (d p : Nat) (l : Bool) : Tok PBeat := ⟨⟨d, p⟩, false, l⟩
+    let e := packetFifoAllPre 2 1 true
+    let ins : List (In PBeat) := [⟨true, t 107 48 true, true⟩, ⟨false, t 0 0 false, true⟩,
+      ⟨false, t 0 0 false, true⟩, ⟨false, t 0 0 false, true⟩]
     e.accepted e.init ins = [t 107 48 true] ∧
     e.delivered e.init ins = [t 0 48 false, t 107 48 true] ∧
-    ¬ (e.delivered e.init ins <+: annT (e.accepted e.init ins)) ∧
-    ((e.runFrom e.init [⟨true, t 107 48 true, true⟩]).par.readable (qkind 1 true) = true ∧
-     (e.runFrom e.init [⟨true, t 107 48 true, true⟩]).pay.readable (qkind 2 true) = false) :=
-  packetFifoAll_defect
+    ¬ (e.delivered e.init ins <+: annT (e.accepted e.init ins)) :=
+  packetFifoPre_defect
 
 /-- `payload_depth = 0`: the FIFO is dead from reset — nothing is ever accepted or delivered (the degenerate case of
     `packetfifo_capacity`: no packet fits). -/
@@ -419,8 +436,10 @@ theorem packetfifo_depth0_dead (qd : Nat) (buffered : Bool) (ins : List (In PBea
       ∀ i, (e.out (e.runFrom e.init ins) i).ready = false ∧ (e.out (e.runFrom e.init ins) i).valid = false :=
   Litex.Packet.packetfifo_depth0_dead qd buffered ins
 
-/-- For depths ≥ 2 `packetFifoAll` IS the machine of `packetfifo_atomic` / `packetfifo_buffered_atomic` (state map
-    `pfaOfPlain` / `pfaOfBuffered`, same accepted and delivered streams from every state, for every input list). -/
+/-- For depths ≥ 2 `packetFifoAll` and the machines of `packetfifo_atomic` / `packetfifo_buffered_atomic` (which keep
+    `source.valid` = param queue non-empty: on their reachable states that implies a non-empty payload queue, so
+    they are port-equivalent to the fixed code) accept and deliver the same streams from reset, for every input
+    list (state maps `pfaOfPlain` / `pfaOfBuffered`, simulation under the machines' own invariant). -/
 theorem packetfifo_all_depths_extends (pd qd : Nat) (hp : 2 ≤ pd) (hq : 2 ≤ qd) (ins : List (In PBeat)) :
     (packetFifo pd qd).accepted (packetFifo pd qd).init ins
         = (packetFifoAll pd qd false).accepted (packetFifoAll pd qd false).init ins ∧
@@ -430,9 +449,9 @@ theorem packetfifo_all_depths_extends (pd qd : Nat) (hp : 2 ≤ pd) (hq : 2 ≤ 
         = (packetFifoAll pd qd true).accepted (packetFifoAll pd qd true).init ins ∧
     (packetFifoBuffered pd qd).delivered (packetFifoBuffered pd qd).init ins
         = (packetFifoAll pd qd true).delivered (packetFifoAll pd qd true).init ins := by
-  have h1 := packetFifoAll_eq_plain pd qd hp hq ins (packetFifo pd qd).init
-  have h2 := packetFifoAll_eq_buffered pd qd hp hq ins (packetFifoBuffered pd qd).init
-  exact ⟨h1.1, h1.2.1, h2.1, h2.2.1⟩
+  have h1 := packetFifoAll_eq_plain_init pd qd hp hq ins
+  have h2 := packetFifoAll_eq_buffered_init pd qd hp hq ins
+  exact ⟨h1.1, h1.2, h2.1, h2.2⟩
 
 /-- Non-vacuity: three back-to-back single-beat packets through `PacketFIFO(1)` (payload `PipeValid`: a beat is
     accepted in the cycle the previous one is popped) come out in order with their own params, also with
